@@ -55,7 +55,9 @@ func VerifC11() {
 		verif.Assert("looping-script-reports-timeout", err == Interrupted)
 		verif.Assert("interrupted-script-emits-nothing", exe == nil)
 	}
-	if err == Interrupted {
+	if err == Interrupted && looping {
+		// (witness label only for the looping script: natively its interruption does not depend on which
+		// goroutine the Go scheduler happens to run first)
 		verif.Reach("interrupted")
 	}
 	// every goroutine started for the execution can finish now (none stays blocked)
